@@ -283,6 +283,91 @@ Definition aardvark_wire (tx : list N) : list N :=
 Definition ipmbdev_send_receive := i2c_send_receive ipmbdev_view ipmbdev_wire.
 Definition aardvark_send_receive := i2c_send_receive aardvark_view aardvark_wire.
 
+(* ------------------------------------------------------------------------- *)
+(* the accessibility probe  is_ipmc_accessible(target)                         *)
+(* ------------------------------------------------------------------------- *)
+(* IpmbDev / Aardvark .is_ipmc_accessible:
+     header = IpmbHeaderReq(): netfn = 6, rs_lun = 0, rs_sa = target.ipmb_address,
+       rq_seq = self.next_sequence_number      # the CURRENT value: the number of the last
+                                               # request; the counter is NOT advanced
+       rq_lun = 0, rq_sa = self.slave_address, cmdid = 1
+     self._send_raw(header, None); self._receive_raw(header); return True
+   One attempt, no retry: IpmiTimeoutError and IOError propagate. *)
+Definition probe_header (st : i2c_state) (rs_sa : N) : hdr :=
+  mkHdr rs_sa 0 (i_slave st) 0 (i_next_seq st) NETFN_APP 1.
+
+(* _receive_raw as called by the probe: like [i2c_recv], but an IOError is not caught *)
+Fixpoint i2c_probe_recv (view : list N -> res (list N)) (h : hdr) (s : list event) : rx_result * list event :=
+  match s with
+  | [] => (RxTimeout, [])
+  | Nothing :: s' => (RxTimeout, s')
+  | OsError :: s' => (RxRaise (OtherError OtherExc), s')
+  | Frame f :: s' =>
+    match view f with
+    | Err e => (RxRaise e, s')
+    | Ok x =>
+      match rx_filter h x default_opts with
+      | Err e => (RxRaise e, s')
+      | Ok true => (RxMatch x, s')
+      | Ok false => i2c_probe_recv view h s'
+      end
+    end
+  end.
+
+(* outcome [Ok []] stands for "returned True" *)
+Definition i2c_probe (view : list N -> res (list N)) (wire : list N -> list N)
+           (st : i2c_state) (rs_sa : N) (s : list event)
+  : res (list N) * i2c_state * list (list N) * list event :=
+  let h := probe_header st rs_sa in
+  match encode_ipmb_msg h [] with
+  | Err e => (Err e, st, [], s)
+  | Ok tx =>
+    match i2c_probe_recv view h s with
+    | (RxMatch _, s') => (Ok [], st, [wire tx], s')
+    | (RxTimeout, s') => (Err TimeoutError, st, [wire tx], s')
+    | (RxRaise e, s') => (Err e, st, [wire tx], s')
+    end
+  end.
+
+(* class Rmcp defines no is_ipmc_accessible: Ipmi.is_ipmc_accessible raises AttributeError,
+   nothing is written, no state changes *)
+Definition rmcp_probe (st : rmcp_state) (rs_sa : N) (s : list event)
+  : res (list N) * rmcp_state * list (list N) * list event :=
+  (Err (OtherError AttributeError), st, [], s).
+
+(* histories made of requests and probes on one interface object *)
+Inductive step := SReq (r : rxreq) | SProbe (rs_sa : N).
+
+Fixpoint i2c_run_steps (view : list N -> res (list N)) (wire : list N -> list N) (st : i2c_state)
+         (carry : list event) (steps : list (step * list event))
+  : list (res (list N) * list (list N) * nat) * i2c_state * list event :=
+  match steps with
+  | [] => ([], st, carry)
+  | (k, s) :: rest =>
+    let '(out, st', sent, unread) :=
+      match k with
+      | SReq r => i2c_send_receive view wire st r (carry ++ s)
+      | SProbe a => i2c_probe view wire st a (carry ++ s)
+      end in
+    let '(outs, stf, c) := i2c_run_steps view wire st' unread rest in
+    ((out, sent, O) :: outs, stf, c)
+  end.
+
+Fixpoint rmcp_run_steps (requeue : bool) (st : rmcp_state) (carry : list event)
+         (steps : list (step * list event))
+  : list (res (list N) * list (list N) * nat) * rmcp_state * list event :=
+  match steps with
+  | [] => ([], st, carry)
+  | (k, s) :: rest =>
+    let '(out, st', sent, unread) :=
+      match k with
+      | SReq r => rmcp_send_receive_gen requeue st r (carry ++ s)
+      | SProbe a => rmcp_probe st a (carry ++ s)
+      end in
+    let '(outs, stf, c) := rmcp_run_steps requeue st' unread rest in
+    ((out, sent, length (m_queue st')) :: outs, stf, c)
+  end.
+
 (* sequences of requests on one interface object: each request comes with the events
    that arrive while it is being served; unread events stay in front of the next ones *)
 Fixpoint rmcp_run (requeue : bool) (st : rmcp_state) (carry : list event)
